@@ -158,18 +158,21 @@ def rule_live(env, shared):
                     if y in body_:
                         continue
                     for f in block_facts(ev, ctx, y):
-                        if f[0] == "eq" and len(f) == 3 and any(z[0] == "atomic" for z in (f[1], f[2])):
+                        if f[0] == "eq" and len(f) == 3 and any(z[0] == "atomic" or T.serving_load(z) is not None for z in (f[1], f[2])):
                             ex["eq"] = True
-                        if f[0] == "lt" and len(f) == 3 and f[2][0] == "atomic" and T.role_of(f[2][2])[0] == "serving":
+                        if f[0] == "lt" and len(f) == 3 and T.serving_load(f[2]) is not None:
                             ex["lt"] = True
                         if f[0] == "flag" and f[2] is True and T.role_of(f[1])[0] == "done":
                             ex["done"] = True
+                        if f[0] == "le" and len(f) == 3 and T.serving_load(f[2]) is not None:
+                            # `while ticket > now_serving { .. }`: left as soon as ticket <= now-serving (equal or passed)
+                            ex["eq"] = ex["lt"] = True
             # exits under Equal may lie deeper (after the gate): look at facts of all blocks reachable from exits
             for bb in b.reachable(0):
                 if bb in body_:
                     continue
                 for f in block_facts(ev, ctx, bb):
-                    if f[0] == "eq" and len(f) == 3 and any(z[0] == "atomic" for z in (f[1], f[2])):
+                    if f[0] == "eq" and len(f) == 3 and any(z[0] == "atomic" or T.serving_load(z) is not None for z in (f[1], f[2])):
                         ex["eq"] = True
             if serving and all(ex.values()):
                 out.append(Ob("LIVE.b", k, "ok", serving[0].loc(),
@@ -242,7 +245,7 @@ def rule_live(env, shared):
             for (K, fs, _v) in cases:
                 okk = False
                 for f in fs:
-                    if f[0] == "lt" and len(f) == 3 and f[2][0] == "atomic" and T.role_of(f[2][2])[0] == "serving":
+                    if f[0] == "lt" and len(f) == 3 and T.serving_load(f[2]) is not None:
                         okk = True
                     if f[0] == "flag" and f[2] is True and T.role_of(f[1])[0] == "done":
                         okk = True
